@@ -112,6 +112,7 @@ func (l *loader) reset() {
 	l.node = nil
 	l.mode = readDefault
 	l.nodesPerCurrentLineCount = 0
+	l.annotationEndedOnThisLine = false
 }
 
 // doLoad the main function, in which there is a cycle of scanning and loading schemas.
